@@ -311,7 +311,7 @@ def search(ctx, exe):
         c2.cleanup()
     impl = core.run_sharded([exe], cases)
     for c, line in zip(cases, impl):
-        why = monitor(c, core.parse_trace(line) if line else None, line)
+        why = core.safe_monitor(monitor, c, core.parse_trace(line) if line is not None else None, line)
         if why:
             core.report_violation(ctx, "sem", c, why, line)
             if len(ctx.violations) >= 3:
